@@ -252,6 +252,15 @@ def collect(rep, pid, tier, replay_file=None):
         index[eid] = si
         events.append((eid, text.replace("@ID@", str(eid))))
 
+    if pid == "C02" and not replay_file:
+        # plus every document of the document family that declares an object class
+        doc_states, dmeta = df.stage1(tier)
+        more = [s for s in doc_states if '"object"' in json.dumps(s["doc"]) and s["parse"] == "ok"]
+        if tier == "quick":
+            more = [s for s in more if s.get("src") != "sim"] + [s for s in more if s.get("src") == "sim"][:1500]
+        for s in more:
+            states.append(dict(doc=s["doc"], cyclic=False, uns=False, edges=[], nodes=[], allowed=s["allowed"]))
+        extra["document_family_states"] = len(more)
     if pid in ("C02", "C20", "C07"):
         obs = drive.pmap(replay_refs, states, chunksize=32)
         for si, (st, ob) in enumerate(zip(states, obs)):
